@@ -3,7 +3,8 @@
 (* server.Loop as the code runs it (server/loop.go): the accept loop, one  *)
 (* goroutine per accepted connection (newService -> Assigner -> Start ->   *)
 (* stop watcher -> WaitStatus -> Finish), context cancellation, accepter   *)
-(* failure.  Fixed10 = FALSE re-creates finding F10 (a connection whose    *)
+(* failure, the three ways a served connection ends (peer close, Stop by   *)
+(* the watcher, channel error: Finish is owed in every one of them).  Fixed10 = FALSE re-creates finding F10 (a connection whose    *)
 (* service fails to initialise is never closed).                           *)
 (***************************************************************************)
 EXTENDS Naturals, Sequences, FiniteSets, TLC
@@ -60,6 +61,10 @@ HandlerRet(c) == /\ c \in 1..Len(conn) /\ conn[c].running = 1
 ClientClose(c) == /\ c \in 1..Len(conn) /\ conn[c].st = "serving" /\ conn[c].cause = "none"
                   /\ conn' = [conn EXCEPT ![c].cause = "closed", ![c].chClosed = TRUE]
                   /\ UNCHANGED <<nsvc, accpc, accerr, ctxdone, loopret>>
+\* the connection fails (Recv reports an error other than end-of-stream): the server exits with that error
+ConnError(c) == /\ c \in 1..Len(conn) /\ conn[c].st = "serving" /\ conn[c].cause = "none"
+                /\ conn' = [conn EXCEPT ![c].cause = "err", ![c].chClosed = TRUE]
+                /\ UNCHANGED <<nsvc, accpc, accerr, ctxdone, loopret>>
 WatcherStop(c) == /\ c \in 1..Len(conn) /\ conn[c].watcher = "gate"
                   /\ conn' = [conn EXCEPT ![c].watcher = "done",
                                           ![c].cause = IF conn[c].cause = "none" /\ conn[c].st = "serving" THEN "stopped" ELSE conn[c].cause,
@@ -86,6 +91,7 @@ Next == \/ Accept
         \/ \E c \in CSpace : ClientCall(c)
         \/ \E c \in CSpace : HandlerRet(c)
         \/ \E c \in CSpace : ClientClose(c)
+        \/ \E c \in CSpace : ConnError(c)
         \/ \E c \in CSpace : WatcherStop(c)
         \/ \E c \in CSpace : ServerExit(c)
         \/ LoopReturn
